@@ -38,6 +38,13 @@
 #include <cpuid.h>
 #endif
 
+#if defined(SKINNY_C_VERIF)
+/* Verification hook (off unless SKINNY_C_VERIF is defined): caps the back end
+   that the probes report so that a check can pin an object to the generic
+   (0) or 128-bit (1) back end; -1 = no cap.  It never raises the answer. */
+int skinny_verif_backend_cap = -1;
+#endif
+
 int _skinny_has_vec128(void)
 {
     int detected = 0;
@@ -57,6 +64,10 @@ int _skinny_has_vec128(void)
     detected = 1;
 #endif
 #endif
+#endif
+#if defined(SKINNY_C_VERIF)
+    if (skinny_verif_backend_cap >= 0 && skinny_verif_backend_cap < 1)
+        detected = 0;
 #endif
     return detected;
 }
@@ -95,6 +106,10 @@ int _skinny_has_vec256(void)
         }
     }
 #endif
+#endif
+#if defined(SKINNY_C_VERIF)
+    if (skinny_verif_backend_cap >= 0 && skinny_verif_backend_cap < 2)
+        detected = 0;
 #endif
     return detected;
 }
